@@ -129,7 +129,9 @@ func (p *SimPools) addObj(ptr uintptr, state uint8) uint32 {
 		return id
 	}
 	if p.nobjs == objCap {
-		copy(p.objs[:], p.objs[objCap/2:])
+		for i := 0; i < objCap/2; i++ {
+			p.objs[i] = p.objs[i+objCap/2]
+		}
 		p.nobjs = objCap / 2
 	}
 	p.objs[p.nobjs] = objRec{ptr: ptr, id: id, state: state}
@@ -187,7 +189,9 @@ func (p *SimPools) PoolGet(kind, class int) interface{} {
 		return v
 	}
 	e := fl.e[dec]
-	copy(fl.e[dec:fl.n-1], fl.e[dec+1:fl.n])
+	for i := dec; i < fl.n-1; i++ {
+		fl.e[i] = fl.e[i+1]
+	}
 	fl.n--
 	fl.e[fl.n] = freeEntry{}
 	if e.tok != nil {
@@ -248,7 +252,9 @@ func (p *SimPools) PoolPut(kind, class int, v interface{}) {
 	}
 	fl := &p.lists[kind][class]
 	if fl.n == freeCap {
-		copy(fl.e[:], fl.e[1:])
+		for i := 0; i < fl.n-1; i++ {
+			fl.e[i] = fl.e[i+1]
+		}
 		fl.n--
 	}
 	tok := new(sync.Mutex)
@@ -270,9 +276,12 @@ func (p *SimPools) Hooks() *tensor.VerifHooks {
 // Finalizer registry: the simulator, not the garbage collector, decides when (and whether) the
 // finalizer of a MultIterator runs once the harness has dropped it.
 
+const finCap = 256
+
 type Finalizers struct {
-	objs    []interface{}
-	dropped []bool
+	n       int
+	objs    [finCap]interface{}
+	dropped [finCap]bool
 	fired   uint64
 	never   uint64
 }
@@ -289,13 +298,18 @@ func (f *Finalizers) Reset() { *f = Finalizers{} }
 
 //go:norace
 func (f *Finalizers) Register(obj interface{}) {
-	f.objs = append(f.objs, obj)
-	f.dropped = append(f.dropped, false)
+	if f.n == finCap {
+		f.never++ // registry full: this object's finalizer never runs (legal)
+		return
+	}
+	f.objs[f.n] = obj
+	f.dropped[f.n] = false
+	f.n++
 }
 
 // Drop marks obj as unreachable for the program.
 func (f *Finalizers) Drop(obj interface{}) {
-	for i := range f.objs {
+	for i := 0; i < f.n; i++ {
 		if f.objs[i] == obj {
 			f.dropped[i] = true
 		}
@@ -305,7 +319,7 @@ func (f *Finalizers) Drop(obj interface{}) {
 // FireSome runs the finalizers of some dropped objects, as the tape decides.
 func (f *Finalizers) FireSome(r *RNG, num, den int) int {
 	n := 0
-	for i := 0; i < len(f.objs); i++ {
+	for i := 0; i < f.n; i++ {
 		if f.dropped[i] && f.objs[i] != nil && r.Chance(num, den) {
 			tensor.VerifRunFinalizer(f.objs[i])
 			f.objs[i] = nil
@@ -325,11 +339,13 @@ type Env struct {
 	ints    [][]int
 	bools   [][]bool
 	counter int
+	st      PoolStats // this client's own counters (merged by the main goroutine afterwards)
 }
 
 func (e *Env) Reset() { *e = Env{} }
 
-func (e *Env) Step(r *RNG, st *PoolStats) {
+func (e *Env) Step(r *RNG) {
+	st := &e.st
 	switch r.Intn(6) {
 	case 0, 1, 2:
 		k := 1 + r.Intn(3)
